@@ -11,33 +11,23 @@ from verifkit import gen_c18
 
 THEOREMS = [
     "Cog.Heap.C18_copy_faithful_independent", "Cog.Heap.C18_full_of_good_table", "Cog.Heap.C18_partial",
-    "Cog.Heap.C18_current_tree", "Cog.Heap.C18_partial_current_tree", "Cog.Heap.C18_exceptions_witnessed",
-    "Cog.Heap.C18_counterexample", "Cog.Heap.C18_status", "Cog.Heap.C18_shared_breaks", "Cog.Heap.C18_omitted_breaks",
+    "Cog.Heap.C18_current_tree", "Cog.Heap.C18_no_bad_entry", "Cog.Heap.C18_full_current_tree",
+    "Cog.Heap.C18_partial_current_tree", "Cog.Heap.C18_universe_needed",
+    "Cog.Heap.C18_prefix_exceptions_witnessed", "Cog.Heap.C18_prefix_counterexample", "Cog.Heap.C18_former_witnesses_pass",
+    "Cog.Heap.C18_process_copies_first", "Cog.Heap.C18_process_frame",
+    "Cog.Heap.C18_shared_breaks", "Cog.Heap.C18_omitted_breaks",
 ]
 MY_LEAN = ("lean/Cog/Heap/", "lean/Cog/Props/C18.lean", "lean/Cog/Gen/CopyFacts.lean", "lean/Cog/Gen/IRFields.lean")
 
-# Proposed known findings (one per exception of lean/Cog/Props/C18.lean `exceptions`).  Used only for
-# ids that /verif/known_findings.json does not list yet; also written to .work/proposed_findings_C18.json.
-_ANY = "an `any` copied by assignment: a []any / map[string]any value (CUE list/struct defaults, JSON array defaults) stays shared between original and copy"
-_X = [
-    ("Type.Default", "shared", "Type.DeepCopy assigns Default as-is; " + _ANY),
-    ("Type.Hints", "shared", "Type.DeepCopy copies the Hints map but assigns each hint value as-is (the disjunction hints hold a DisjunctionType with slices and a map)"),
-    ("TypeConstraint.Args", "shared", "TypeConstraint.DeepCopy copies the Args slice but its elements are `any` assigned as-is"),
-    ("ScalarType.Value", "shared", "ScalarType.DeepCopy assigns Value as-is; " + _ANY),
-    ("EnumValue.Value", "shared", "EnumValue.DeepCopy assigns Value as-is; " + _ANY),
-    ("ConstantReferenceType.ReferenceValue", "shared", "ConstantReferenceType.DeepCopy assigns ReferenceValue as-is; " + _ANY),
-    ("Schema.EntryPointType", "shared", "Schema.DeepCopy assigns EntryPointType (a Type struct) as-is: its kind pointer, Hints and PassesTrail stay shared, so Passes.Process mutates the caller's schema"),
-    ("Builder.For", "shared", "Builder.DeepCopy assigns For (an Object struct) as-is: Comments, PassesTrail and the whole type tree stay shared with the duplicated builder"),
-    ("Builder.Factories", "omitted", "Builder.DeepCopy does not copy Factories: the duplicate has none"),
-    ("Option.Default", "omitted", "Option.DeepCopy does not copy Default: the duplicated option loses its default"),
-    ("PathIndex.Constant", "shared", "PathIndex.DeepCopy assigns Constant as-is; " + _ANY),
-    ("AssignmentValue.Constant", "shared", "AssignmentValue.DeepCopy assigns Constant as-is; " + _ANY),
-    ("AssignmentConstraint.Parameter", "shared", "AssignmentConstraint.DeepCopy assigns Parameter as-is; " + _ANY),
-    ("TypedConstant.Value", "shared", "TypedConstant.DeepCopy assigns Value as-is; " + _ANY),
-]
-PROPOSED = [{"id": "C18/%s/%s" % (l, w), "property": "C18", "what": what,
-             "match": r"^c18 [^\t]*\tFAIL %s %s( |$)" % (w, re.escape(l)),
-             "pinned_input": "./check C18 --replay witness:%s" % l} for (l, w, what) in _X]
+# All former C18 findings are FIXED in /repo (b4532a0, ea8a40d, 1572d8b, 71b1811).  Their ids must not
+# suppress anything any more, whatever /verif/known_findings.json still lists: a relapse is a VIOLATION.
+# The former witnesses are replayed on every run as must-pass inputs (stream c18-witness).
+FIXED_IDS = {"C18/%s" % x for x in (
+    "Type.Default/shared", "Type.Hints/shared", "TypeConstraint.Args/shared", "ScalarType.Value/shared",
+    "EnumValue.Value/shared", "ConstantReferenceType.ReferenceValue/shared", "Schema.EntryPointType/shared",
+    "Builder.For/shared", "Builder.Factories/omitted", "Option.Default/omitted", "PathIndex.Constant/shared",
+    "AssignmentValue.Constant/shared", "AssignmentConstraint.Parameter/shared", "TypedConstant.Value/shared")}
+PROPOSED = []
 
 
 def mode_show(m):
@@ -61,7 +51,7 @@ def lean_obligations_scoped(c, theorems, facts_ok):
     """as Check.lean_obligations, but building and scanning only the modules C18 depends on"""
     ok, out = lake_build(("Cog.Props.C18",))
     c.oblige("lake build Cog.Props.C18 (heap model, meta-theorems, regenerated facts, property file)", ok, out[-3000:] if not ok else "")
-    hits = [h for h in forbidden_scan() if h.startswith(MY_LEAN)]
+    hits = forbidden_scan(["Cog.Props.C18"])
     c.oblige("no sorry/admit/axiom/native_decide/bv_decide/implemented_by/unsafe in the C18 lean sources", not hits, hits[:10])
     if not ok or not facts_ok:
         for t in theorems:
@@ -75,20 +65,9 @@ def lean_obligations_scoped(c, theorems, facts_ok):
 
 
 def build_c18_harness():
-    """the shared harness sources, restricted to the files the C18 streams need (main, prng, util,
-    c18_*): somebody else's half-written stream must not decide whether C18 can be checked"""
-    import glob
-    files = [os.path.join(VERIF, "harness", f) for f in ("main.go", "prng.go", "util.go")] + \
-        sorted(glob.glob(os.path.join(VERIF, "harness", "c18_*.go")))
-    name = "verifharness-c18"
-    os.makedirs(BIN, exist_ok=True)
-    with Lock("gobuild-" + name):
-        ov = os.path.join(WORK, "overlay-%s.json" % name)
-        with open(ov, "w") as fh:
-            json.dump({"Replace": {os.path.join(REPO, "cmd", name, os.path.basename(f)): f for f in files}}, fh)
-        out = os.path.join(BIN, name)
-        p = run(["go", "build", "-overlay", ov, "-o", out, "./cmd/" + name], cwd=REPO, env=GOENV)
-        return (out, "") if p.returncode == 0 else (None, p.stderr)
+    """the shared harness sources, restricted to the files the C18 streams need: somebody else's
+    half-written stream must not decide whether C18 can be checked"""
+    return build_go("verifharness", "harness", files=["main.go", "prng.go", "util.go", "c18_*.go"], tag="c18")
 
 
 def case_args(req):
@@ -111,15 +90,14 @@ def main():
     c.trusted = [
         "Lean 4.33 kernel; axioms per theorem are listed in obligation_list (subset of propext, Classical.choice, Quot.sound)",
         "extract/xcopy: the syntactic reading of the DeepCopy bodies (refuses on unknown forms) and its go/types field classification; re-checked in Lean (byValue only on types whose IRFields shape is immutable, same field lists) and dynamically (every extracted mode confirmed or contradicted by observing the real methods)",
-        "tools.Map and orderedmap.Map.Map/New/Set are read once and pinned by body hash (a change makes xcopy refuse); their behaviour is exercised by the dynamic stream",
+        "tools.Map and orderedmap.Map.Map/New/Set are read once and pinned by body hash (a change makes xcopy refuse); their behaviour is exercised by the dynamic stream; deepCopyValue is NOT pinned: its type switch is analysed case by case",
+        "the universe of dynamic types held by the IR's `any` fields (irDynTypes in Props/C18.lean: scalars, []any, map[string]any, DisjunctionType, Type) is an assumption about cog's front-ends and passes, read off their source by hand; the harness generates exactly these; typed containers such as []string would stay shared (theorem C18_universe_needed, stream c18-caveat)",
+        "compiler.Passes.Process is tied by a syntactic fact only (input used once, as receiver of DeepCopy, unconditionally; returns the copy): the dynamic side for chains is C07's",
         "the address-tree abstraction: IR values are trees whose only shared mutable stores are slices' backing arrays, maps and pointer targets; Go's type system guarantees hasTy (a field of an immutable type holds no store)",
         "harness/c18_*.go: reflective oracle (unsafe only for store addresses and orderedmap's unexported fields), its generator, and its own snapshot cloner (checked against the value before every case)",
     ]
-    known_ids = {f["id"] for f in c.known}
-    c.known += [f for f in PROPOSED if f["id"] not in known_ids]
+    c.known = [f for f in c.known if f["id"] not in FIXED_IDS]
     os.makedirs(WORK, exist_ok=True)
-    with open(os.path.join(WORK, "proposed_findings_C18.json"), "w") as fh:
-        json.dump({"findings": PROPOSED}, fh, indent=1)
 
     # 1. facts
     facts_ok, detail = gen_c18.regen()
@@ -141,13 +119,24 @@ def main():
                     static_bad[lab] = k
                     if exc.get(lab) != mode_show(f["mode"]).replace("(", " ").replace(")", ""):
                         outside.append("%s: %s [%s]" % (lab, mode_show(f["mode"]), f.get("how", "")))
+        for d in table.get("dyn") or []:
+            k = bad_kind(d["mode"])
+            if k:
+                static_bad["any." + d["gotype"]] = k
+                outside.append("%s case %s: %s [%s]" % (table.get("dyn_helper"), d["gotype"], mode_show(d["mode"]), d.get("how", "")))
         if facts_ok:
+            pf = table.get("process") or {}
+            proc_ok = bool(pf.get("found") and pf.get("input_uses") == 1 and pf.get("only_use_is_deepcopy") and pf.get("copy_at_top_level")
+                           and pf.get("no_return_before_copy") and pf.get("returns_copy_or_nil"))
+            c.oblige("compiler.Passes.Process duplicates its input unconditionally before the chain and returns only the duplicate (input used once, as receiver of DeepCopy, at top level, no return before it)", proc_ok, pf)
             c.oblige("every copy-table entry that is not good is on the explicit exception list of Props/C18.lean", not outside, outside)
             miss = [T for T in table["copy_order"] if [f["field"] for f in table["copy"][T]] != [f["name"] for f in table["structs"].get(T, [])]]
             c.oblige("copy table and IR field lists name the same fields of the same structs", not miss, miss)
         c.cov["table_summary"] = {"structs": len(table["struct_order"]), "copied_structs": len(table["copy_order"]),
                                   "fields": sum(len(table["copy"][T]) for T in table["copy_order"]),
                                   "deepcopy_methods": len(table["roots"]), "not_good": static_bad,
+                                  "dyn_helper": table.get("dyn_helper"), "dyn_cases": {d["gotype"]: mode_show(d["mode"]) for d in table.get("dyn") or []},
+                                  "process": table.get("process"),
                                   "exceptions_no_longer_in_table": sorted(set(exc) - set(static_bad))}
 
     # 4. harness
@@ -226,7 +215,9 @@ def main():
                 reported += 1
         return cov_row
 
-    consume("c18-witness", harness(hb, "c18-witness", table=gen_c18.TABLE))
+    consume("c18-witness", harness(hb, "c18-witness", table=gen_c18.TABLE))   # pinned inputs: must pass
+    cav = harness(hb, "c18-caveat", table=gen_c18.TABLE)
+    c.cov["caveat_dynamic_types_outside_the_universe"] = [{"input": r[0], "value": r[1][:200], "observed": r[2][:200]} for r in cav]
     plans = [(c.seed, 3, 140)] if c.tier == "quick" else [(c.seed, 3, 2500), (c.seed + 1, 4, 2500), (c.seed + 2, 5, 1500), (c.seed + 3, 2, 1500)]
     cov = None
     for (seed, depth, n) in plans:
@@ -256,7 +247,8 @@ def main():
                                  "blamed": cov["blamed"]}
     c.finish("cd /verif/lean && lake build Cog.Props.C18 && lake env lean <#print axioms of the C18_* theorems>; .work/bin/xcopy; .work/bin/verifharness c18-witness|c18-random",
              "one evaluation = one generated IR value (of one of the %d types with a DeepCopy method, depth per plan) through the real DeepCopy, compared by reflection, then every location of the copy written and the original compared with its snapshot; distinct by (case, observation summary)" % (len(table["roots"]),),
-             "C18_full is false on the current tree (C18_counterexample: the regenerated table has %d entries that are not good, all on the exception list); C18_partial_current_tree is the proved part" % len(static_bad))
+             ("C18_full holds on the current tree (C18_full_current_tree) over the stated universe of dynamic types; the 14 former exceptions are fixed in /repo, witnessed on the pinned pre-fix table (C18_prefix_*) and replayed as must-pass inputs"
+              if not static_bad else "the regenerated table has %d entries that are not good: %s" % (len(static_bad), sorted(static_bad))))
 
 
 main()
